@@ -4,10 +4,12 @@ import (
 	"context"
 	"fmt"
 	"os"
+	"path/filepath"
 	"reflect"
 	"regexp"
 	"sort"
 	"strings"
+	"time"
 	"unicode"
 
 	log "github.com/go-spring/log"
@@ -784,5 +786,83 @@ func init() {
 				}
 			}
 			return fmt.Sprint(c.N), v, c.N
+		})
+}
+
+// ---------------------------------------------------------------------------------------------
+// C15 - "a plugin attribute takes the configured value" when the value's meaning is registered LATER:
+// a level name / rotation policy that is unknown at the first Refresh (error, as it must be), then
+// registered by the application, then configured again: the second Refresh succeeds and the value is
+// the registered one; re-registering a policy under the same name with another interval is seen too.
+// ---------------------------------------------------------------------------------------------
+
+func init() {
+	definePart("C15", "c15/registered-later", "qt", "a level name and a rotation policy that are registered between a failed and a second Refresh (6 attribute positions), and a policy re-registered with another interval",
+		func(tier string, yield func(string)) {
+			for _, k := range []string{"logger-level", "ref-level", "appender-rotation", "logger-rotation", "rotation-reregistered", "level-range-upper"} {
+				yield(k)
+			}
+		},
+		func(kind string) (string, []Violation, int) {
+			confReset()
+			d := filepath.Join(c15Dir(), "later")
+			os.RemoveAll(d)
+			os.MkdirAll(d, 0o755)
+			lname := fmt.Sprintf("LATER%s", strings.ToUpper(strings.ReplaceAll(kind, "-", "")))
+			rname := "37m-" + kind
+			conf := map[string]string{"appender.rec.type": "Rec", "logger.root.type": "Logger", "logger.root.appenderRef.ref": "rec"}
+			switch kind {
+			case "logger-level":
+				conf["logger.root.level"] = lname
+			case "level-range-upper":
+				conf["logger.root.level"] = "INFO~" + lname
+			case "ref-level":
+				conf["logger.root.appenderRef.level"] = lname
+			case "appender-rotation", "rotation-reregistered":
+				conf["appender.roll.type"], conf["appender.roll.fileDir"], conf["appender.roll.fileName"] = "RollingFile", d, "r.log"
+				conf["appender.roll.rotation"], conf["appender.roll.maxAge"] = rname, "24"
+			case "logger-rotation":
+				conf = map[string]string{"appender.unused.type": "Discard", "logger.root.type": "RollingFile", "logger.root.fileDir": d, "logger.root.fileName": "rl.log", "logger.root.rotation": rname}
+			}
+			var v []Violation
+			fail := func(clause, dt string) { v = append(v, Violation{Clause: clause, Key: kind, Detail: dt}) }
+			err, pn := safeRefresh(conf)
+			if pn != nil {
+				fail("refresh-panicked", fmt.Sprint(pn))
+			}
+			if err == nil {
+				fail("bad-config-accepted", "a name nobody has registered was accepted: "+confString(conf))
+			}
+			safeCall(log.Destroy)
+			if strings.Contains(kind, "rotation") {
+				log.RegisterTimeRotation(rname, log.TimeRotation{Interval: 37 * time.Minute})
+			} else {
+				log.RegisterLevel(450, lname)
+			}
+			err, pn = safeRefresh(conf)
+			if err != nil || pn != nil {
+				fail("valid-config-rejected", fmt.Sprintf("after the name had been registered the same configuration is still refused: err=%v panic=%v", err, pn))
+				safeCall(log.Destroy)
+				return "rejected", v, 2
+			}
+			live := dumpLive()
+			safeCall(log.Destroy)
+			if kind == "rotation-reregistered" {
+				log.RegisterTimeRotation(rname, log.TimeRotation{Interval: 41 * time.Minute})
+				if err, pn := safeRefresh(conf); err != nil || pn != nil {
+					fail("valid-config-rejected", fmt.Sprintf("third Refresh: err=%v panic=%v", err, pn))
+				} else {
+					live = dumpLive()
+					safeCall(log.Destroy)
+					if got := live["appender.roll.Rotation"]; got != "41m0s" {
+						fail("attribute-value", fmt.Sprintf("the policy was registered again with 41m: the appender's rotation is %q", got))
+					}
+				}
+			} else if strings.Contains(kind, "appender-rotation") {
+				if got := live["appender.roll.Rotation"]; got != "37m0s" {
+					fail("attribute-value", fmt.Sprintf("appender.roll.Rotation = %q, want 37m0s", got))
+				}
+			}
+			return fmt.Sprint(len(live)), v, 3
 		})
 }
